@@ -1,8 +1,13 @@
 /-
   Lang — a deep embedding of the core of the Reduino DSL (source side) and of the emitted C++ (target side).
   Source fragment: int/bool values; + - *, bitwise & | ^, floor division `//` and modulo `%`, `abs`, two-argument `min`/`max`
-  (W1), unary minus, comparisons, and/or/not, conditional expressions; assignment, augmented assignment (all binary operators), if/elif/else, while, for-range, break,
+  (W1), unary minus, comparisons, and/or/not, conditional expressions; assignment, augmented assignment (all binary operators),
+  tuple (parallel) assignment `a, b = b, a + b` (W5), if/elif/else, while, for-range, break,
   serial write, sleep; a run-once prologue and an optional `while True:` main loop.
+  Tuple assignment: the source statement `tuple k xs es` carries the value `k` the parser's `tmp_counter` has when it reaches the
+  statement (a derived attribute: `Stmt.numberedFrom` / `Prog.numbered` say that the stored numbers are the parser's, `Stmt.renum`
+  computes them; the driver renumbers every program it reads).  The target statement `ctuple k ts xs es` stands for the emitted lines
+  `T0 __tmp_assign_k = e0; T1 __tmp_assign_(k+1) = e1; … x0 = __tmp_assign_k; x1 = __tmp_assign_(k+1); …`.
 -/
 namespace Reduino.Lang
 
@@ -29,11 +34,16 @@ inductive Expr where
   | mm (k : MinMax) (a b : Expr)        -- the builtins `min(a, b)` / `max(a, b)`; n-ary calls are the left fold `min(min(a, b), c)`
   deriving DecidableEq, Repr
 
+inductive Ty where | int | bool
+  deriving DecidableEq, Repr
+
 inductive Stmt where
   | skip
   | seq (a b : Stmt)
   | assign (x : String) (e : Expr)
   | aug (x : String) (op : BinOp) (e : Expr)
+  | tuple (k : Nat) (xs : List String) (es : List Expr)                       -- source only: `x0, x1, … = e0, e1, …`
+  | ctuple (k : Nat) (ts : List Ty) (xs : List String) (es : List Expr)      -- target only: temporaries, then assignments
   | ifs (c : Expr) (thn els : Stmt)
   | whileLoop (c : Expr) (body : Stmt)
   | forRange (i : String) (n : Expr) (body : Stmt)
@@ -46,6 +56,50 @@ structure Prog where
   pre : Stmt
   body : Option Stmt
   deriving DecidableEq, Repr
+
+/-! ### tuple assignment: the temporaries and the parser's counter -/
+
+/-- the C++ temporary number `n` of a tuple assignment (`f"__tmp_assign_{n}"`) -/
+def tmpName (n : Nat) : String := "__tmp_assign_" ++ toString n
+
+/-- names of that shape are reserved for the temporaries -/
+def isTmp (x : String) : Bool := x.toList.take 13 == "__tmp_assign_".toList
+
+/-- value of the parser's `tmp_counter` after the statement, entered with value `k`: a tuple assignment takes one temporary per
+    right-hand side; loop bodies hand their counter back to the enclosing block, the branches of an `if` do not
+    (every branch context is created from the parent's counter and dropped) -/
+def Stmt.tmpEnd : Nat → Stmt → Nat
+  | k, .seq a b => b.tmpEnd (a.tmpEnd k)
+  | k, .tuple _ _ es => k + es.length
+  | k, .whileLoop _ b => b.tmpEnd k
+  | k, .forRange _ _ b => b.tmpEnd k
+  | k, _ => k
+
+/-- the numbers stored in the tuple statements are the parser's, entering with counter `k` -/
+def Stmt.numberedFrom : Nat → Stmt → Bool
+  | k, .seq a b => a.numberedFrom k && b.numberedFrom (a.tmpEnd k)
+  | k, .tuple j _ _ => j == k
+  | k, .ifs _ t e => t.numberedFrom k && e.numberedFrom k
+  | k, .whileLoop _ b => b.numberedFrom k
+  | k, .forRange _ _ b => b.numberedFrom k
+  | _, .ctuple _ _ _ _ => false            -- not a source statement
+  | _, _ => true
+
+/-- one counter for the whole parse: the main loop continues where the prologue stopped -/
+def Prog.numbered (p : Prog) : Bool :=
+  p.pre.numberedFrom 0 && (match p.body with | none => true | some b => b.numberedFrom (p.pre.tmpEnd 0))
+
+/-- (re)compute the stored numbers -/
+def Stmt.renum : Nat → Stmt → Stmt
+  | k, .seq a b => .seq (a.renum k) (b.renum (a.tmpEnd k))
+  | k, .tuple _ xs es => .tuple k xs es
+  | k, .ifs c t e => .ifs c (t.renum k) (e.renum k)
+  | k, .whileLoop c b => .whileLoop c (b.renum k)
+  | k, .forRange i n b => .forRange i n (b.renum k)
+  | _, s => s
+
+def Prog.renum (p : Prog) : Prog :=
+  { pre := p.pre.renum 0, body := p.body.map fun b => b.renum (p.pre.tmpEnd 0) }
 
 /-! ### values, stores, events (shared by both semantics) -/
 
@@ -62,9 +116,6 @@ def Val.truthy : Val → Bool
   | .int n => n ≠ 0
   | .bool b => b
 
-inductive Ty where | int | bool
-  deriving DecidableEq, Repr
-
 def Val.ty : Val → Ty
   | .int _ => .int
   | .bool _ => .bool
@@ -73,6 +124,11 @@ abbrev Store := List (String × Val)
 
 def Store.get (s : Store) (x : String) : Option Val := s.lookup x
 def Store.set (s : Store) (x : String) (v : Val) : Store := (x, v) :: s.filter (·.1 ≠ x)
+
+/-- bind the names left to right (Python's unpacking of a tuple display into a target list) -/
+def Store.setAll (s : Store) : List String → List Val → Store
+  | x :: xs, v :: vs => (s.set x v).setAll xs vs
+  | _, _ => s
 
 inductive Ev where
   | write (n : Int)      -- one serial line carrying an int
